@@ -13,7 +13,7 @@ PID = "C18"
 ANCHORS = ["showbias.py:showbias", "showbias.py:_apply_normalization", "showbias.py:_get_group_index", "showbias.py:_validate_column_inputs",
            "showbias.py:showbias.<locals>.calculate_group_metric", "showbias.py:showbias.<locals>.calculate_metric",
            "group_scores.py:GroupScores.group_cm"]
-DECIDING = {"R-showbias": 3000}
+DECIDING = {"R-showbias": 2064}
 THOROUGH_EXTRA = ["W2"]
 RULE = (
     "Every case builds a DataFrame and calls showbias under np.random.seed; M-bs records the bootstrap samples drawn and M-bci the interval "
@@ -37,7 +37,7 @@ COUNTS = {
 RATES = ["tpr", "tnr", "fpr", "fnr", "tar", "frr", "trr", "far", "topr", "tonr", "acceptance_rate", "rejection_rate", "ppv", "npv", "fdr", "for_",
          "accuracy", "error_rate"]
 METRICS = list(COUNTS) + RATES + ["class_accuracy", "class_error_rate"]
-VALUE_POOL = ["A", "B", "female", "male", "a_b", "c", "a", "b_c", "x y", "ß", "_", "18-25", "p_", "10", "9"]
+VALUE_POOL = ["A", "B", "female", "male", "a_b", "c", "a", "b_c", "x y", "ß", "_", "18-25", "p_", "10", "9", "1", "AB", "a b", "US", "US-East"]
 
 
 def metric_ref(name, m):
